@@ -98,7 +98,8 @@ func concC18(rng *rand.Rand, rounds int, res *concResult) {
 	for it := 0; it < rounds; it++ {
 		r := []float64{1, 2, 5, 0.5, 10}[rng.Intn(5)]
 		burst := 1 + rng.Intn(8)
-		expires := time.Duration(1+rng.Intn(5)) * time.Second
+		// ExpiresIn*rate >= burst (the property's precondition: otherwise expiry legitimately refills faster than the rate)
+		expires := time.Duration(int(float64(burst)/r)+1+rng.Intn(3)) * time.Second
 		mk := func() (*middleware.RateLimiterMemoryStore, *int64) {
 			s := middleware.NewRateLimiterMemoryStoreWithConfig(middleware.RateLimiterMemoryStoreConfig{Rate: rate.Limit(r), Burst: burst, ExpiresIn: expires})
 			var now int64 = 1_000_000_000_000
@@ -112,6 +113,9 @@ func concC18(rng *rand.Rand, rounds int, res *concResult) {
 		desc := fmt.Sprintf("rate=%v burst=%d expires=%v ids=%v goroutines=%d", r, burst, expires, ids, g)
 		for ph := 0; ph < 4; ph++ {
 			adv := int64(rng.Intn(8)) * 250_000_000 // multiples of 1/4 s: exact in float64
+			if adv > int64(expires) {
+				adv = int64(expires) // every identifier is asked for in every phase, so none is idle longer than ExpiresIn here
+			}
 			if rng.Intn(4) == 0 {
 				// idle identifiers expire; long enough to refill a kept bucket completely, so that it does not matter
 				// which identifier's call runs the cleanup first (kept-and-refilled and dropped-and-fresh agree)
@@ -127,6 +131,12 @@ func concC18(rng *rand.Rand, rounds int, res *concResult) {
 				for j := 0; j < per; j++ {
 					id := ids[rng.Intn(len(ids))]
 					calls[k] = append(calls[k], id)
+					total[id]++
+				}
+			}
+			for i, id := range ids {
+				if total[id] == 0 {
+					calls[i%g] = append(calls[i%g], id)
 					total[id]++
 				}
 			}
